@@ -84,7 +84,8 @@ assert len(CAT) == 61
 NO_IDLE_METHOD = {'Apo', 'Aroon', 'Bop', 'TypicalPrice'}
 
 # ---------------------------------------------------------------- series
-REGIMES = ['walk', 'walk', 'wide', 'flat', 'up', 'down', 'zigzag', 'ties', 'plateau', 'offset', 'outlier', 'wide', 'dips']
+REGIMES = ['walk', 'walk', 'wide', 'flat', 'up', 'down', 'zigzag', 'ties', 'plateau', 'offset', 'outlier', 'wide', 'dips',
+           'flatrun', 'penny', 'huge', 'touch']
 
 
 def q(x):
@@ -94,6 +95,39 @@ def q(x):
 
 def gen_ohlcv(rng, n, regime=None):
     regime = regime or rng.choice(REGIMES)
+    if regime in ('penny', 'huge'):
+        # a walk at a very low (fractions of a cent) or very high (beyond 2^31) price level: exact power-of-two rescaling
+        s, _ = gen_ohlcv(rng, n, rng.choice(['walk', 'wide', 'dips']))
+        k = 2.0 ** (-15 if regime == 'penny' else 24)
+        for f in 'ohlc':
+            s[f] = [x * k for x in s[f]]
+        return s, regime
+    if regime == 'flatrun':
+        # a walk with stretches of identical bars (halted trading); one of them may open the series
+        s, _ = gen_ohlcv(rng, n, rng.choice(['walk', 'wide']))
+        for _ in range(rng.randrange(1, 3)):
+            if n == 0:
+                break
+            a = 0 if rng.random() < 0.4 else rng.randrange(0, n)
+            ln = rng.randrange(4, 24)
+            for i in range(a, min(n, a + ln)):
+                for f in 'ohlc':
+                    s[f][i] = s['c'][a]
+        return s, regime
+    if regime == 'touch':
+        # whole-number prices in a narrow band: closes land exactly on bands, extremes and earlier closes
+        base = float(rng.choice([8, 10, 50]))
+        o, h, l, c, v = [], [], [], [], []
+        prev = base
+        for i in range(n):
+            cl = max(1.0, prev + rng.choice([-1, -1, 0, 0, 1, 1, 2, -2]))
+            op = max(1.0, prev + rng.choice([-1, 0, 0, 1]))
+            hi = max(cl, op) + rng.choice([0, 0, 1, 2])
+            lo = max(0.5, min(cl, op) - rng.choice([0, 0, 1, 2]))
+            o.append(op); h.append(hi); l.append(lo); c.append(cl)
+            v.append(float(rng.choice([0, 100, 100, 200, 300])))
+            prev = cl
+        return {'o': o, 'h': h, 'l': l, 'c': c, 'v': v}, regime
     base = rng.choice([2.0, 10.0, 100.0, 500.0])
     if regime == 'offset':
         base = float(2 ** 27)       # a high price level with a small spread (cancellation-prone formulas show up here)
